@@ -9,6 +9,10 @@ from ..proto import enc, enc_pt, enc_pts, dec_pts
 SITE = "constraints_check.py:contraints_check"
 SITE_FRESH = "constraints_check.py:remove-previously-evaluated"
 
+# case kinds of corpus/ entries (failing inputs of past regressions) that this module replays on every run
+CORPUS_KINDS = ('filter', 'filter_run')
+
+
 
 def _impl(case):
     from pybads.function_logger.constraints_check import contraints_check
@@ -43,6 +47,8 @@ def _cons_fn(spec):
             v = -np.ones(len(X))
         if ret == "bool":
             return v > 0
+        if ret == "tiny":           # violations reported as very small positive numbers: still violations (> 0)
+            return v * 1e-10
         return v
     return f
 
@@ -90,7 +96,7 @@ def gen_cases(ctx):
             hi = [hi[0], np.inf]
         if hi[1] == np.inf:
             lo = [lo[0], -np.inf]
-        cons = rng.choice([None, None, ("sum_gt", 2.0, "float"), ("first_gt", 1.0, "bool"), ("ball", 2.0, "float"), ("all", 0, "bool"), ("none", 0, "float")])
+        cons = rng.choice([None, None, ("sum_gt", 2.0, "float"), ("first_gt", 1.0, "bool"), ("ball", 2.0, "float"), ("all", 0, "bool"), ("none", 0, "float"), ("sum_gt", 2.0, "tiny"), ("ball", 2.0, "tiny")])
         cases.append({"U": U, "lo": lo, "hi": hi, "tol": rng.choice([1.0, 0.5, 2.0]), "logX": L,
                       "proj": rng.random() < 0.6, "cons": cons, "kind": "lattice2"})
     # (b) random dyadic candidates on the search mesh, D <= 5, with near-coincidences
@@ -107,7 +113,7 @@ def gen_cases(ctx):
         bounded = rng.random() < 0.8
         lo = [(-h * rng.randint(1, 5)) if bounded else -np.inf for _ in range(D)]
         hi = [(h * rng.randint(1, 5)) if bounded else np.inf for _ in range(D)]
-        cons = rng.choice([None, None, ("sum_gt", 0.0, "float"), ("first_gt", 0.0, "bool"), ("ball", (3 * h) ** 2, "float")])
+        cons = rng.choice([None, None, ("sum_gt", 0.0, "float"), ("first_gt", 0.0, "bool"), ("ball", (3 * h) ** 2, "float"), ("sum_gt", 0.0, "tiny")])
         cases.append({"U": U, "lo": lo, "hi": hi, "tol": tol, "logX": L, "proj": rng.random() < 0.6,
                       "cons": cons, "kind": "dyadic"})
     return cases
